@@ -538,7 +538,7 @@ func (s *c27st) exec(line string) {
 	s.c.Op(line, result+" | "+s.dump())
 	s.c.Distinct(line)
 	for _, f := range s.fails {
-		s.c.Fail(f[0], f[1])
+		capFail(s.c, f[0], f[1])
 	}
 }
 
